@@ -73,6 +73,15 @@ DIRECTED = {
                      "1 getfz0v 1", "conv 1 1 9", "conv 1 0 10", "0 getmat 1", "3 getmat 1", "2 allocinit 0 0 0 0", "conv 1 2 9",
                      "2 meta", "conv 0 3 10", "3 dims", "3 resize 0 2 2 2", "3 getmat 0", "conv 2 2 11", "conv 0 1 1", "1 dims",
                      "0 dims", "1 dims", "2 dims", "3 dims"],
+    # pointer getters on allocations that are still 0: NULL answered to a successful call (raw pointer token
+    # @N / @P, model: AccessorsModel.ptr_null); the library's own frequency vector handed back to it (DH90);
+    # an allocation that was once non-zero keeps its pointer after shrinking to nothing
+    "null_pointers": ["0 getfv", "0 getz0v", "0 fmin", "0 setfvself", "0 resize 0 0 0 1", "0 getmat 0", "0 getfz0v 0", "0 getz0v",
+                      "0 getfv", "0 setfvself", "1 resize 0 0 0 2", "1 setfv 2 3 1", "1 setfvself", "1 getfv", "conv 2 3 0", "3 dims",
+                      "3 getfv", "0 resize 1 1 1 1", "0 getmat 0", "0 getz0v", "0 resize 1 0 0 1", "0 getmat 0", "0 getz0v",
+                      "0 setfz0v 0 0", "0 getfz0v 0", "0 resize 0 0 0 0", "0 getfv", "2 setfvself"],
+    # fmin / fmax are the first / last element, not the lowest / highest (c15_fmin_fmax_lowest_highest_refuted_unordered)
+    "unordered_frequencies": ["0 resize 0 0 0 3", "0 setfv 3 3 1 2", "0 fmin", "0 fmax", "0 getfv", "0 setfvself", "0 fmin"],
     "mode_switches": ["0 init 4 2 2 2", "0 setz0v 2 10,0 20,0", "0 setfz0 1 1 99,0", "0 getz0 0", "0 getz0v",
                       "0 getfz0v 0", "0 getfz0v 1", "0 setz0 0 5,0", "0 hasfz0", "0 getz0v", "0 setfz0v 0 2 1,0 2,0",
                       "0 setallz0 7,0", "0 getfz0 1 1", "0 setfz0 1 0 3,0", "0 setz0v 2 8,0 9,0", "0 getfz0v 1"],
@@ -292,6 +301,9 @@ def run(ctx):
         "(abstract array, type rule dims_fit, documented vector lengths) is read against vnadata(3) by hand",
         "extraction (ExtrOcamlBasic) + ocaml/drv_data.ml glue; harness/data_harness.c; gcc ASan/UBSan/LSan",
         "the format string is an opaque token (6 canonical strings, 6 strings that must be refused); allocation failure is not modelled here (C12)",
+        "premise call_ok of c15f_history_invariant (every _vnadata_set_simple_format call passes a producible descriptor): holds by "
+        "reading its two callers, vnadata_load_touchstone.c and vnadata_save.c; the three format models (FormatModel, AccessorsModel, "
+        "DataModel.fmt) are linked by reading",
         "hand-written coq/Data/TwoObjModel.v (machine of any number of objects and the abstract machine with spec_convert, read against "
         "vnadata(3) by hand) and coq/Data/AccessorsModel.v (alloc_and_init, get_type_name, format vector + cached string); the N-object "
         "machine is tied through its two-object instance (c15_two_object_machine_embeds), the accessors by directed and random scripts",
